@@ -9,6 +9,7 @@ mod expr;
 mod zdd;
 mod coord;
 mod dispatch;
+mod wm;
 
 fn main() {
     let args: Vec<String> = std::env::args().collect();
@@ -32,6 +33,8 @@ fn main() {
         "coord-replay" => coord::replay(rest),
         "coord-record" => coord::record(rest),
         "dispatch-replay" => dispatch::replay(rest),
+        "wm-replay" => wm::replay(rest),
+        "wm-record" => wm::record(rest),
         other => {
             eprintln!("unknown engine {other}");
             std::process::exit(2);
